@@ -16,6 +16,9 @@ import (
 	"net"
 	"sort"
 	"strings"
+	"sync"
+	"sync/atomic"
+	"time"
 
 	"github.com/refraction-networking/conjure/pkg/zzverif/venum"
 	"github.com/refraction-networking/conjure/pkg/zzverif/vh"
@@ -445,9 +448,71 @@ func VerifC14Main() {
 		c14PartA(a)
 	case name == "A:offsets":
 		c14PartOffsets(a)
+	case name == "race":
+		c14Race(a)
 	case strings.HasPrefix(name, "B:"):
 		c14PartB(a, name)
 	default:
 		vh.Fatal("unknown scenario %q", name)
 	}
+}
+
+// c14Race: free-running companion for the race detector: 6 goroutines x 40 selections (library versions
+// 0-4, both families) on one shared selector; every result is also compared with the serial answer.
+func c14Race(a *vh.Args) {
+	groups := []*pb.PhantomSubnets{c14MkGroup(c14Groups[0], 9, true), c14MkGroup(c14Groups[10], 1, false), c14MkGroup(c14Groups[11], 3, false)}
+	sel := &PhantomIPSelector{Networks: map[uint]*SubnetConfig{}}
+	sel.AddGeneration(1, &SubnetConfig{WeightedSubnets: groups})
+	seeds := c14Seeds(8)
+	type q struct {
+		seed []byte
+		ver  uint
+		v6   bool
+	}
+	var qs []q
+	var want []string
+	one := func(x q) string {
+		ip, err := sel.Select(x.seed, 1, x.ver, x.v6)
+		if err != nil {
+			return "err:" + err.Error()
+		}
+		return ip.IP().String()
+	}
+	for i, sd := range seeds {
+		for ver := uint(0); ver <= 4; ver++ {
+			x := q{sd, ver, (i+int(ver))%2 == 1}
+			qs = append(qs, x)
+			want = append(want, one(x))
+		}
+	}
+	out := &vh.Out{Name: "race", Exhaustive: false, Cap: "free-running sample of schedules under the race detector (adjunct)", ViolCounts: map[string]int64{},
+		Samples: []any{map[string]any{"iteration": "6 goroutines x 40 Select calls (libver 0-4, both families) on one selector, each compared with the serial answer"}}}
+	t0 := time.Now()
+	var n, bad int64
+	var first atomic.Value
+	for time.Since(t0) < a.Budget/4 {
+		var wg sync.WaitGroup
+		for g := 0; g < 6; g++ {
+			g := g
+			wg.Add(1)
+			go func() {
+				defer wg.Done()
+				for i := 0; i < 40; i++ {
+					k := (g*7 + i) % len(qs)
+					if got := one(qs[k]); got != want[k] {
+						atomic.AddInt64(&bad, 1)
+						first.CompareAndSwap(nil, fmt.Sprintf("libver %d: %s concurrently, %s serially", qs[k].ver, got, want[k]))
+					}
+					atomic.AddInt64(&n, 1)
+				}
+			}()
+		}
+		wg.Wait()
+	}
+	out.Evaluations, out.Traces, out.WallS = n, n, time.Since(t0).Seconds()
+	if bad > 0 {
+		out.ViolCounts["concurrent-selection-differs:free-running"] = bad
+		out.Violations = append(out.Violations, &vh.Violation{Key: "concurrent-selection-differs:free-running", What: first.Load().(string), Replay: map[string]any{"scenario": "race", "kind": "race"}})
+	}
+	vh.Emit(out)
 }
